@@ -116,8 +116,17 @@ Definition node_up_speed_flow (n m : nat) : res (A * A) :=
           e_up_flow E q_last (lp P m Pturn) betas (option_map snd ov))
   end.
 
-(* links.py:145-261, base.py:108-124 *)
-Definition link_step (opts : options) (m : nat) : res (list A * list A) :=
+(* links.py:263-264 / 344-353: equilibrium speed of a plain or of a speed-limited link *)
+Definition link_Veq (m : nat) : list A :=
+  match lvsl (linkd U m) with
+  | None => e_Veq E (s_rho st m) (lp P m Pvfree) (lp P m Prhocrit) (lp P m Pa)
+  | Some vsl => e_cVeq E (s_rho st m) (s_vc st m) vsl (lp P m Palpha)
+                  (lp P m Pvfree) (lp P m Prhocrit) (lp P m Pa)
+  end.
+
+(* links.py:145-256: the next density and speed before the positive_next_* clamps, for a given
+   equilibrium-speed vector (the only place where the two link classes differ) *)
+Definition link_raw_V (Veq : list A) (m : nat) : res (list A * list A) :=
   ud <- match nodes_of_link g m with Some ud => Ok ud | None => Err EKey end ;;
   let n_up := fst ud in let n_down := snd ud in
   let rho := s_rho st m in
@@ -146,14 +155,19 @@ Definition link_step (opts : options) (m : nat) : res (list A * list A) :=
     | None => None
     end in
   let rho_next := e_step_rho E rho q q_up (lanes m) (lp P m PL) (gT P) in
-  let Veq := match lvsl (linkd U m) with
-             | None => e_Veq E rho (lp P m Pvfree) (lp P m Prhocrit) (lp P m Pa)
-             | Some vsl => e_cVeq E rho (s_vc st m) vsl (lp P m Palpha)
-                             (lp P m Pvfree) (lp P m Prhocrit) (lp P m Pa)
-             end in
   let v_next := e_step_v E v v_up rho rho_down Veq (lanes m) (lp P m PL) (gtau P) (geta P)
                   (gkappa P) (gT P) q_ramp (gdelta P) lanes_drop (gphi P)
                   (Some (lp P m Prhocrit)) in
+  Ok (rho_next, v_next).
+
+Definition link_raw (m : nat) : res (list A * list A) := link_raw_V (link_Veq m) m.
+
+(* links.py:257-261 (positive_next_* clamps), base.py:108-124 (shape check) *)
+Definition link_step (opts : options) (m : nat) : res (list A * list A) :=
+  rv <- link_raw m ;;
+  let rho := s_rho st m in
+  let v := s_v st m in
+  let rho_next := fst rv in let v_next := snd rv in
   let rho_next := if pn_rho opts then e_max E zero rho_next else rho_next in
   let v_next := if pn_v opts then e_max E zero v_next else v_next in
   if ((List.length rho_next =? List.length rho) && (List.length v_next =? List.length v))%nat
